@@ -11,6 +11,7 @@ U10C = ("u10_typed_trace", {"which": "cache"})
 
 U5 = ("u5_parser", {})
 U8 = ("u8_writer_tail", {})
+U3 = ("u3_interpretation", {})
 U4 = ("u4_cache_parse", {})
 U7 = ("u7_metadata", {})
 
@@ -21,7 +22,7 @@ BUILDERS_ASSUMED = ("ProguardMapper::create_proguard_mapper and the record-colle
 PROPS = {
     "C01": {
         "title": "Line-based retrace returns exactly the recorded call stack",
-        "units": [U1F, U2F],
+        "units": [U1F, U2F, U3],
         "kani": [],
         "technique": "Verus (Z3) function contracts on mechanically extracted reader code: iterate_with_lines/next == head of spec retrace(); remap_frame == exact entry block",
         "level_text": "Deductive proof, for all field values / slice lengths / iterations, that both readers' frame iterators yield exactly "
@@ -36,7 +37,7 @@ PROPS = {
     },
     "C02": {
         "title": "A cache written from a mapping answers every query exactly like the mapper",
-        "units": [U1F, U2F, U8],
+        "units": [U1F, U2F, U8, U3],
         "kani": [],
         "technique": "refinement: both readers proved (Verus) against the SAME spec functions retrace/by_params/unanimous through abs_member / abs_mm",
         "level_text": "Both readers are verified against one shared abstract model, so equal abstract entries give equal answers for remap_class, "
@@ -198,7 +199,7 @@ PROPS = {
     },
     "C13": {
         "title": "No mapping bytes and no query can make the library panic or overflow",
-        "units": [U2S, U5, U7, U10M],
+        "units": [U2S, U5, U7, U10M, U3, U8],
         "kani": ["k3_java_base_types"],
         "technique": "Verus implicit obligations on the mapper reader with NO precondition on entry values",
         "level_text": "The mapper's reader functions are verified with arbitrary usize entry values and any frame: no overflow, no out-of-bounds, termination.",
